@@ -55,6 +55,26 @@ def gen_user(rng, name=None):
             "permissions": perms, "nilperms": nilp, "passkeys": rng.choice(PKS), "last": rng.choice(LASTS)}
 
 
+def gen_persist_history(rng):
+    """a clean store, ONE mutation, a restart, then observation (the dirty flag / write-through is what is tested)."""
+    ops = [{"op": "write", "user": gen_user(rng, rng.choice(["bob", "carol", "Bob"]))} for _ in range(rng.randint(1, 3))]
+    ops.append({"op": rng.choice(["flush", "reopen", "reopen"])})
+    for _ in range(rng.randint(1, 2)):
+        n = rng.choice(["bob", "carol", "Bob"])
+        k = rng.choice(["delete", "write", "setperm"])
+        if k == "delete":
+            ops.append({"op": k, "name": n})
+        elif k == "write":
+            ops.append({"op": k, "user": gen_user(rng, n)})
+        else:
+            ops.append({"op": k, "name": n, "priv": rng.choice(PRIVS), "on": rng.random() < 0.5})
+        if rng.random() < 0.5:
+            ops.append({"op": rng.choice(["read", "perms"]), "name": n})
+        ops.append({"op": "reopen"})
+    ops += [{"op": "read", "name": "bob"}, {"op": "list", "mask": False}]
+    return ops
+
+
 def gen_history(rng, may_delete_admin):
     ops = []
     for _ in range(rng.randint(6, 16)):
@@ -96,6 +116,9 @@ def corpus():
         [{"op": "write", "user": user("bob", ["logon"])}, {"op": "delete", "name": "admin"}, {"op": "list", "mask": False},
          {"op": "reopen"}, {"op": "list", "mask": False}],
         [{"op": "delete", "name": "admin"}, {"op": "list", "mask": False}, {"op": "reopen"}, {"op": "list", "mask": False}],
+        # one mutation between two clean points (dirty flag)
+        [{"op": "write", "user": user("bob", ["logon"])}, {"op": "flush"}, {"op": "delete", "name": "bob"}, {"op": "reopen"},
+         {"op": "read", "name": "bob"}, {"op": "list", "mask": False}],
         # cache in front of the table, update vs insert, case-sensitive names
         [{"op": "write", "user": user("bob", ["a", "b", "c"])}, {"op": "read", "name": "bob"}, {"op": "read", "name": "Bob"},
          {"op": "setperm", "name": "bob", "priv": "A", "on": False}, {"op": "cachedrop"}, {"op": "perms", "name": "bob"},
@@ -262,7 +285,8 @@ def run(ck):
     ck.cov["rule"] = ("histories of 6-16 operations over 7 user names (case variants, empty, quote, non-ASCII) on both real "
                       "stores: write (nil / empty / 1-3 permissions, passkeys JSON, last-token time), delete, read, list "
                       "(masked or not), GetPermissions, GetPermission, setPermission (mixed-case privilege names), flush, "
-                      "restart, cache purge; every history ends with a restart and a listing; 12% of the histories may "
+                      "restart, cache purge; every history ends with a restart and a listing; 30% are persistence patterns (clean "
+                      "store, one mutation, restart, observe); 12% of the others may "
                       "delete the default user; fixed corpus first. distinct_nontrivial = distinct (op, answer) pairs "
                       "observed after at least one restart on the real stores")
     ck.assume("the JSON user file and the SQLite credentials table bring every user record back unchanged except that the "
@@ -293,7 +317,7 @@ def run(ck):
     hs = corpus()
     n = 90 if quick else 1500
     while len(hs) < n:
-        hs.append(gen_history(ck.rng, ck.rng.random() < 0.12))
+        hs.append(gen_persist_history(ck.rng) if ck.rng.random() < 0.3 else gen_history(ck.rng, ck.rng.random() < 0.12))
     if ck.replay_file:
         rp = json.load(open(ck.replay_file))["replay"]
         hs = rp.get("histories") or hs[:5]
